@@ -5,9 +5,9 @@
    OPERANDS, the wfm/rfm dispatch tables, LANG_TYPES, SECTION_IDS.  The text form is NOT modelled
    (validated by round trip in the check).  [rt w r a] = the writer succeeds with some bytes bb and
    the reader returns (a, rest) from bb ++ rest for every rest. *)
-From PV Require Import Lib.Py Model.WasmTypes Gen.Tab_wasm_opcodes Model.WasmBin Model.WasmCanon Spec.WasmOpcodeSpec
-  Proofs.C21_leb Proofs.C21_instr Proofs.C21_defs Proofs.C21_module Proofs.C21_spec Proofs.C21_canon.
-From Coq Require Import String.
+From PV Require Import Lib.Py Model.WasmTypes Gen.Tab_wasm_opcodes Model.WasmBin Model.WasmCanon Model.WasmText Model.WasmBinVal Spec.WasmOpcodeSpec
+  Proofs.C21_leb Proofs.C21_instr Proofs.C21_defs Proofs.C21_module Proofs.C21_spec Proofs.C21_canon Proofs.C21_text.
+From Coq Require Import String Ascii.
 Local Open Scope string_scope.
 Local Open Scope list_scope.
 Open Scope Z_scope.
@@ -277,4 +277,91 @@ Proof.
   - destruct (write_module example_module) as [bs| | |] eqn:E; try (vm_compute in E; discriminate E).
     exists bs. split; [reflexivity|]. vm_compute in E. injection E as <-. vm_compute. reflexivity.
   - vm_compute. repeat split.
+Qed.
+
+(* ================= text form, instruction level (Model.WasmText; tie H) =================
+   [print_instr]: TextWriter.write_instruction / write_block_instruction as lexical pieces;
+   [lex]: the lexer's conversion of numeric words; [parse_instr]: WatParser._load_instruction
+   restricted to the writer's output.  [fs] = Python's float spelling (repr) and float(), a
+   parameter: a float constant is in scope when [float_ok fs raw] (its spelling reads back).
+   [wf_text] lists the proved classes: block/loop/if with block type, every mnemonic whose operands
+   are indices, i32/i64 (two's-complement range), f32/f64, u32; load/store with offset=/align=
+   keywords; br_table; memory.size/grow; call_indirect on table 0; select with result types. *)
+Theorem c21_text_decimal : forall z, undec (dec z) = Some z /\ lex_word (dec z) = TInt z.
+Proof. intros z. split; [apply undec_dec|apply lex_dec]. Qed.
+Print Assumptions c21_text_decimal.
+
+Theorem c21_text_instr_roundtrip : forall fs i ps rest,
+  wf_text fs i = true -> print_instr fs i = Ok ps -> safe_next rest = true ->
+  parse_instr fs (lex ps ++ rest) = Ok (i, rest).
+Proof. exact text_instr_rt. Qed.
+Print Assumptions c21_text_instr_roundtrip.
+
+(* function bodies: flat instruction lists with nested block/loop/if ... else ... end and numeric labels *)
+Theorem c21_text_body_roundtrip : forall fs l ps fuel,
+  forallb (wf_text fs) l = true -> print_instrs fs l = Ok ps -> (List.length l < fuel)%nat ->
+  parse_instrs fs fuel (lex ps) = Ok l.
+Proof. exact text_body_rt. Qed.
+Print Assumptions c21_text_body_roundtrip.
+
+(* refuted rows (defects of the text form, re-executed on the implementation by the check) *)
+Theorem c21_text_u8_operand_refuted : forall fs,
+  exists ps, print_instr fs (Instr "memory.fill" [AInt 0]) = Ok ps /\
+             parse_instr fs (lex ps) = Ok (Instr "memory.fill" [AInt 0], [TInt 0]).
+Proof. exact text_u8_operand_refuted. Qed.
+Print Assumptions c21_text_u8_operand_refuted.
+
+Theorem c21_text_call_indirect_table_refuted : forall fs,
+  exists ps, print_instr fs (Instr "call_indirect" [ARef "type" 0; ARef "table" 1]) = Ok ps /\
+             parse_instrs fs 10 (lex ps) = Diag 12.
+Proof. exact text_call_indirect_table_refuted. Qed.
+Print Assumptions c21_text_call_indirect_table_refuted.
+
+Theorem c21_text_same_spelling_refuted : forall fs r1 r2, r1 <> r2 -> len r1 = len r2 ->
+  (if len r1 =? 4 then repr32 fs r1 = repr32 fs r2 else repr64 fs r1 = repr64 fs r2) ->
+  ~ (float_ok fs r1 = true /\ float_ok fs r2 = true).
+Proof. exact text_same_spelling_refuted. Qed.
+Print Assumptions c21_text_same_spelling_refuted.
+
+(* non-vacuity with a toy float spelling ("f" followed by the hexadecimal bytes) *)
+Definition toy_fs : fspell :=
+  let rp (raw : bytes) := String "f"%char (hex_of_bytes raw) in
+  let ps s := match s with String _ h => Some (bytes_of_hex h) | EmptyString => None end in
+  Build_fspell rp ps rp ps.
+
+Definition text_example : list instr := [
+  Instr "block" [AStr "emptyblock"];
+    Instr "loop" [AStr "i32"];
+      Instr "local.get" [ARef "local" 0];
+      Instr "if" [AStr "f64"];
+        Instr "f64.const" [AFloat [24; 45; 68; 84; 251; 33; 9; 64]];
+      Instr "else" [];
+        Instr "f32.const" [AFloat [0; 0; 192; 127]];
+      Instr "end" [];
+      Instr "i32.const" [AInt (-2147483648)];
+      Instr "i64.const" [AInt 9223372036854775807];
+      Instr "br_table" [ARefs [("label", 0); ("label", 1); ("label", 0)]];
+    Instr "end" [];
+    Instr "i32.load" [AInt 2; AInt 0];
+    Instr "i64.load8_u" [AInt 0; AInt 4294967295];
+    Instr "i32.store16" [AInt 0; AInt 16];
+    Instr "call_indirect" [ARef "type" 3; ARef "table" 0];
+    Instr "select" [AStrs ["i32"]];
+    Instr "select" [AStrs []];
+    Instr "memory.grow" [AInt 0];
+    Instr "table.copy" [ARef "table" 0; ARef "table" 1];
+    Instr "br_table" [ARefs (repeat ("label", 1234567) 12)];
+  Instr "end" []
+].
+
+Example c21_text_nonvacuous :
+  forallb (wf_text toy_fs) text_example = true /\
+  (exists ps, print_instrs toy_fs text_example = Ok ps /\ List.length ps = 65%nat /\
+              parse_instrs toy_fs 40 (lex ps) = Ok text_example).
+Proof.
+  split; [vm_compute; reflexivity|].
+  destruct (print_instrs toy_fs text_example) as [ps| | |] eqn:E; try (vm_compute in E; discriminate E).
+  exists ps. split; [reflexivity|]. split.
+  - vm_compute in E. injection E as <-. reflexivity.
+  - apply (c21_text_body_roundtrip toy_fs text_example ps 40%nat); [vm_compute; reflexivity|exact E|cbn; lia].
 Qed.
